@@ -327,6 +327,7 @@ func writeReplay(prop string, o *Obl, reason string, smt string) (string, bool) 
 	}
 	reproduced := false
 	if rm := findReplayTemplate(o.Name); rm != nil {
+		rm.model = o.Model
 		ro := runReplay(rm, filepath.Join(verifRoot(), ".work", prop, "replay"))
 		rec["replay_scenario"] = rm.What
 		rec["go_test_source"] = ro.Source
